@@ -340,6 +340,18 @@ def r06_8(ctx, rep):
         module_state_free(ctx, rep, "R06.8", rel, "the generator module (generate() and every helper it may call)")
 
 
+@SPEC.rule(
+    "R06.9",
+    "lookups remember nothing: no function of ast.py or tree.py writes a module-level or class-level container or is wrapped in a "
+    "caching decorator — a memo of what _find_class found by walking up the parents keeps answering with the class that was there "
+    "before add_class / remove_class replaced it (also in copies of copies)",
+)
+def r06_9(ctx, rep):
+    from .c25 import module_state_free
+    module_state_free(ctx, rep, "R06.9", "src/pymoca/ast.py", "the class and symbol lookups")
+    module_state_free(ctx, rep, "R06.9", "src/pymoca/tree.py", "the flattening passes")
+
+
 # -- seeded variants ---------------------------------------------------------
 from ._mut import delete_stmt_where, find_def, replace_in_func  # noqa: E402
 
